@@ -17,5 +17,10 @@ var specs = map[string]propSpec{
 	"C05": {level: "model_checking", budgetQ: 4 * time.Minute, budgetT: 40 * time.Minute},
 	"C11": {level: "model_checking", budgetQ: 4 * time.Minute, budgetT: 40 * time.Minute},
 	"C19": {level: "model_checking", budgetQ: 4 * time.Minute, budgetT: 40 * time.Minute},
+	"C09": {level: "model_checking", budgetQ: 4 * time.Minute, budgetT: 40 * time.Minute},
+	"C08": {level: "model_checking", race: true, budgetQ: 6 * time.Minute, budgetT: 40 * time.Minute},
+	"C10": {level: "model_checking", budgetQ: 4 * time.Minute, budgetT: 40 * time.Minute},
+	"C17": {level: "model_checking", budgetQ: 4 * time.Minute, budgetT: 40 * time.Minute},
+	"C18": {level: "model_checking", budgetQ: 4 * time.Minute, budgetT: 40 * time.Minute},
 	"C03": {level: "model_checking", budgetQ: 4 * time.Minute, budgetT: 40 * time.Minute},
 }
